@@ -226,7 +226,7 @@ Definition two_sig : msig := {| ms_params := [ATypeVar tvS; ATypeVar tvS]; ms_re
    raise PedanticTypeVarMismatchException" - false for methods of a NON-generic @pedantic_class:
    m(a=1, b='b') with a: T, b: T is accepted although the specification demands the mismatch. *)
 Definition w_k5b : world :=
-  {| w_classes := [{| cd_kind := KPedantic; cd_init := None; cd_methods := [two_sig] |}]; w_funs := [] |}.
+  {| w_classes := [{| cd_kind := KPedantic; cd_tparams := []; cd_init := None; cd_methods := [two_sig] |}]; w_funs := [] |}.
 Theorem C07_same_call_refuted_nongeneric_pedantic_class :
   exists w h, run_history cfg no_ctx w h = [ROk; ROk] /\
               call_spec no_ctx xenv_none (sig_positions two_sig) [VInt 1; VStr [98]; VNone] = MustNot /\
@@ -249,7 +249,7 @@ Print Assumptions C07_nongeneric_pedantic_class_positionwise.
    - false on instances of generic classes for a TypeVar that is not a type parameter of the class:
    two(a='x', b='y') then two(a=1, b=2) raises, although the second call alone is accepted. *)
 Definition w_k5c : world :=
-  {| w_classes := [{| cd_kind := KGeneric [0]; cd_init := None; cd_methods := [two_sig] |}]; w_funs := [] |}.
+  {| w_classes := [{| cd_kind := KGeneric [0]; cd_tparams := [0]; cd_init := None; cd_methods := [two_sig] |}]; w_funs := [] |}.
 Theorem C07_no_leak_refuted_method_level_typevar :
   exists w create earlier c,
     last (run_history cfg no_ctx w (create ++ [c])) RAbsent = ROk /\
